@@ -2,9 +2,9 @@
 from __future__ import annotations
 from engine.registry import Registry
 from engine import sortmodel, polymodel
-from contracts import option, sorting, align, compare, order_lemmas, leading, dispatch, construct, dispatchfn, baseclass, derivative, division, statics, call
+from contracts import option, sorting, align, compare, order_lemmas, leading, dispatch, construct, dispatchfn, baseclass, derivative, division, statics, call, codec
 
-_CONTRACT_MODULES = [option, sorting, align, compare, leading, dispatch, construct, dispatchfn, baseclass, derivative, division, call]
+_CONTRACT_MODULES = [option, sorting, align, compare, leading, dispatch, construct, dispatchfn, baseclass, derivative, division, call, codec]
 
 ALL_CONTRACTS = {}
 for _m in _CONTRACT_MODULES:
@@ -18,6 +18,9 @@ def build_registry():
     polymodel.install(reg)      # (numpy.array: polymodel's axiom covers index vectors too)
     polymodel.install_clean(reg)
     polymodel.install_align(reg)
+    from engine import codecmodel
+    codecmodel.install(reg)
+    codec.install_axioms(reg)
     for c in ALL_CONTRACTS.values():
         def model(ex, args, kw, node, _c=c):
             ex.reg.used.add("contract:" + _c.name)
@@ -212,9 +215,21 @@ PROPS = {
                 "for the zero polynomial), isconstant, tonumpy (raises exactly for non-constants) are proved; todict, decompose, "
                 "set_dimensions, sortable_proxy, argmax/argmin/amax/amin: bounded run-time checks (conc/checks_c19.py).",
                 trusted_base=COMMON_TRUSTED + ["glexsort contract (proved, C18)", "ndpoly accessor model"]),
-    "C20": dict(level="other", contracts=[], explanation="Bounded/exhaustive run-time checks (conc/checks_c20.py): every single "
-                "exponent 0..0x110040 through construction, raw view, reconstruction, pickle (thorough tier, exhaustive); products "
-                "with exponent sums <= 600 exhaustively; random tuples below 55000.", trusted_base=COMMON_TRUSTED),
+    "C20": dict(level="other", contracts=["numpoly.ndpoly", "numpoly.ndpoly.exponents", "numpoly.derivative"],
+                explanation="The storage-key codec is proved from the real source of baseclass.py, with KEY_OFFSET read from the class "
+                "body on every run: ndpoly.__new__ stores row t under the field name whose code points are exactly E(t,d)+KEY_OFFSET "
+                "(no wrap-around, no NUL, valid unicode), different rows get different field names, and for ARBITRARY integer exponents "
+                "it either does that or raises ValueError/SystemError for a real reason (an entry outside [0, 0x10FFFF-KEY_OFFSET] or a "
+                "repeated row) - a different monomial is never stored; the `exponents` property decodes exactly the stored rows "
+                "(decode(encode(row)) == row, no truncation). All contracts above it are phrased on exponent VALUES with no bound "
+                "below the storable range, so construction, alignment, differentiation (derivative: storability of the lowered "
+                "exponents is an obligation) and pickling carry any storable exponent. Multiplication/powers (compiled kernel + "
+                "fallback), evaluation at large exponents and text I/O: exhaustive / bounded run-time checks (conc/checks_c20.py).",
+                trusted_base=COMMON_TRUSTED + ["numpy axioms of engine/codecmodel.py: uint32 wrap-around, 'U<w>' <-> uint32 views, "
+                                               "astype padding, numpy.dtype field-name rules, code points above 0x10FFFF raise (observed on numpy 2.5.3)",
+                                               "assumed contract of numpoly.symbols (default names)"],
+                assumptions=["A3 numpy axioms (conformance: the exhaustive single-exponent sweep of the bounded part)"],
+                not_decided=["multiply / power exponent sums (bounded, exhaustive to 600)", "savetxt/loadtxt of keys (bounded)"]),
     "C13": dict(level="other", contracts=["numpoly.ndpoly.__reduce__", "numpoly.ndpoly.__array_finalize__",
                                           "numpoly.polynomial_from_attributes"],
                 explanation="__reduce__ (real source) is proved to return polynomial_from_attributes together with the polynomial's "
@@ -233,11 +248,11 @@ PROPS = {
     "C03": dict(
         level="other",
         contracts=["numpoly.remove_redundant_coefficients", "numpoly.remove_redundant_names", "numpoly.postprocess_attributes",
-                   "numpoly.polynomial_from_attributes", "numpoly.clean_attributes"],
+                   "numpoly.polynomial_from_attributes", "numpoly.clean_attributes", "numpoly.ndpoly", "numpoly.ndpoly.exponents",
+                   "numpoly.ndpoly.coefficients", "numpoly.ndpoly.values", "numpoly.ndpoly.__array_finalize__", "numpoly.ndpoly.todict"],
         trusted_base=COMMON_TRUSTED + [
-            "assumed contract of ndpoly.__new__ (fresh, uninitialised storage, one field per exponent row) and of the "
-            "ndpoly accessors .exponents/.coefficients/.values/.keys (engine/polymodel.py); the uint32<->unicode key codec "
-            "behind them is exercised exhaustively at run time under C20",
+            "ndpoly.__new__ and the accessors .exponents/.coefficients/.values are verified from their source (contracts/codec.py) "
+            "against the model engine/polymodel.py uses for them at call sites; numpy axioms of engine/codecmodel.py",
             "assumed contract of the compiled numpoly.cfrom_attributes (Cython, cannot be rebuilt here)",
             "numpy axioms: asarray, any/all, zeros/zeros_like, unique(return_counts), boolean column masks, tolist (engine/polymodel.py)"],
         assumptions=["A1 casts are identity on values", "B1: the abstract value of a polynomial depends only on its sparse "
